@@ -170,6 +170,15 @@ ListEffect(f, x, y, s, i, j) ==
                        ELSE Mut(x, DelItemD(L, FirstEq(L, s) - 1), x \o ".remove(" \o s \o ")")
     [] f = "reverse" -> Mut(x, SqRev(L), x \o ".reverse()")
     [] f = "sort" -> Mut(x, StableSort(L), x \o ".sort()")
+    \* x.sort(key=...) with a key function that appends to y at every call.  The key function is called exactly once per
+    \* item.  While a list is being sorted it is detached (it looks empty, whatever is done to it is discarded), and a
+    \* change made to it during the sort is reported afterwards: the list ends up sorted AND ValueError is raised.  A key
+    \* function that changes another list is an ordinary function: y grows by one item per item of x.
+    [] f = "sortkeymut" ->
+         LET stmt == x \o ".sort(key=lambda e: (" \o y \o ".append(0), e)[1])" IN
+         IF var[x] = var[y]
+         THEN Eff(var, [heap EXCEPT ![var[x]] = StableSort(L)], iter, stmt, IF n = 0 THEN "ok" ELSE "ValueError", <<>>, {var[x]}, FALSE, FALSE)
+         ELSE Eff(var, [heap EXCEPT ![var[x]] = StableSort(L), ![var[y]] = M \o [q \in 1..n |-> Sc("0")]], iter, stmt, "ok", <<>>, {var[x], var[y]}, FALSE, FALSE)
     [] f = "clear" -> Mut(x, <<>>, x \o ".clear()")
     [] f = "copy" -> Fresh(x, M, x \o " = " \o y \o ".copy()")
     [] f = "iadd" -> Mut(x, L \o M, x \o " += " \o y)
@@ -225,7 +234,7 @@ ListEffect(f, x, y, s, i, j) ==
 \* which parameters a form reads (the others are pinned so that a statement is enumerated once)
 ListUses(f) ==
   CASE f \in {"append", "remove", "contains", "index", "count"} -> {"s"}
-    [] f \in {"appendref", "extend", "copy", "iadd", "slicecopy", "listcopy", "concat", "concat2", "repeat", "rebind", "eq", "forappend", "listcomp", "setrev", "seteven"} -> {"y"}
+    [] f \in {"appendref", "extend", "copy", "iadd", "slicecopy", "listcopy", "concat", "concat2", "repeat", "rebind", "eq", "forappend", "listcomp", "setrev", "seteven", "sortkeymut"} -> {"y"}
     [] f \in {"insert", "setitem"} -> {"i", "s"}
     [] f \in {"popi", "delitem", "getitem", "imul"} -> {"i"}
     [] f \in {"setslice", "setslice2", "setslicem1", "getslice"} -> {"y", "i", "j"}
@@ -252,6 +261,7 @@ ListEnabled(f, x, y, s, i, j) ==
        [] f = "repeat" -> Small(2 * Len(M))
        [] f = "setslice" -> Small(Len(SetSliceD(L, i, j, NoneV, M)))
        [] f = "sort" -> AllScalars(L)
+       [] f = "sortkeymut" -> AllScalars(L) /\ Has("sort") /\ Has("append") /\ (var[x] # var[y] => Small(Len(M) + n))
        [] f = "rebind" -> x # y
        [] f = "next" -> iter.obj # 0
        [] f = "drain" -> iter.obj # 0
